@@ -1,5 +1,5 @@
 """C14 — coroutine Mutex: mutual exclusion and no lost wake-up (structural clauses; K20, K20n, all four options)."""
-from rules import lib_core, lib_coro, lib_exec, lib_order
+from rules import lib_core, lib_coro, lib_exec, lib_order, lib_shape
 from vlib import pathwalk
 
 SENDER = 'yaclib::detail::MutexImpl::_sender'
@@ -81,7 +81,10 @@ def run(ctx):
     rf = ctx.rule('R-FIFO', 'GetHead reverses the LIFO list exactly in the FIFO instantiations', minimum=4)
     rg = ctx.rule('R-GUARD', 'a guard unlocks in its destructor iff it owns the lock', minimum=2)
     rs = ctx.rule('R-SUSPEND', 'lock awaiters: await_suspend == AwaitLock outcome', minimum=4)
+    rsh = ctx.rule('R-SHAPE', 'GetHead neither loses, duplicates nor cycles the waiters it takes over (shape analysis '
+                   'over list segments, all lengths)', minimum=4)
     for cfg, fb in sorted(fbs.items()):
+        lib_shape.check(ctx, fb, rsh, lambda qn: 'MutexImpl' in qn, 4)
         lib_order.check(ctx, fb, cfg, [SENDER], rw, ro, rc)
         fns = [f for f in fb.fn.values() if f.clsq == M and f.cfg is not None]
         opts = {f.cls for f in fns}
